@@ -21,7 +21,14 @@ fam "seq"  histories of atomic writes / in-place same-size rewrites with a new
            load() (also etag() calls during which the file changes: after EVERY
            file-system call the call makes on its path - os.stat, open, each read,
            whatever a dry run of the implementation shows; symbol E@<k>:<change>),
-           for .json/.yaml/.yml, include_mtime on and off.
+           for .json/.yaml/.yml, include_mtime on and off.  Layouts of the configured path (case field
+           "layout", see LAYOUTS): a plain file (default); the path is a symbolic link to a file (new content
+           by atomic_write over the link, or by switching the link atomically to a new version file; delete =
+           unlink / a dangling link); a parent directory is a symbolic link (written through, or switched to a
+           new release directory, ConfigMap style); directories renamed into place; a relative configured path
+           (working directory constant).  The history and the model stay the same - the harness carries out
+           "this content becomes visible at the path" by the layout's own operations and reads back what
+           open(path) shows.
            Compared with the model: the equality pattern of the tags, None for a
            missing file, load() result or exception class (a change before the
            file is opened / read = the model's mid-call change; a change after the
@@ -1539,8 +1546,8 @@ def gen_seq(chk):
                 continue
             for ci, (ext, incl) in enumerate([(".json", False), (".yaml", True)]):
                 cases.append({"fam": "seq", "name": "p" + ext, "incl": incl, "ops": list(seq)})
-            h += 1
-            for _ in range((1 if (n <= 2 or h % 3 == 0) else 0) if quick else 2):
+            h += 1    # on another layout: thorough - every history; quick - up to length 2 and every third of length 3
+            for _ in range(1 if (not quick or n <= 2 or h % 3 == 0) else 0):
                 lay, (ext, incl) = rot([(".json", False), (".yaml", True), (".yml", False), (".json", True)])
                 cases.append({"fam": "seq", "name": "p" + ext, "incl": incl, "ops": list(seq), "layout": lay})
     # 2b. tiny hashing chunk sizes (the read loop of _hash_file): A and B differ only in their 21st byte
@@ -1562,7 +1569,7 @@ def gen_seq(chk):
                       "incl": rng.random() < 0.5, "ops": [rng.choice(alpha3) for _ in range(n)],
                       "contents": {"d": extra}, "chunk": rng.choice([None, None, 1, 7, 64])})
     # 3b. the same kind of history on the other layouts (generated after 3 so that its cases stay as they were)
-    for _ in range(300 if quick else 8000):
+    for _ in range(300 if quick else 5000):
         n = rng.randint(5, 14)
         extra = rng.choice(DOC_POOL)
         cases.append({"fam": "seq", "name": "p" + rng.choice([".json", ".yaml", ".yml", ".YAML", ".txt"]),
@@ -1860,7 +1867,12 @@ def run(chk):
         "load}, histories {7 cache states} x {etag with one of 8 changes landing after its k-th file-system call, every k "
         "seen on a dry run of the implementation, and right after the call} x {quiet etags, return to the old file, "
         "touch, load} x include_mtime (+ tiny chunk sizes: between two reads), "
-        "seeded random histories of length 5-14; non-trivial = at least one observation and one "
+        "seeded random histories of length 5-14; the same history families on 8 other LAYOUTS of the configured "
+        "path (symbolic link to a file, replaced by atomic_write or switched atomically to new version files / left "
+        "dangling; symlinked parent directory, written through or switched to a new release directory; directories "
+        "renamed into place; relative path) - quick: one rotating layout for a fraction of the histories, thorough: "
+        "every layout for every history up to length 4 of the first alphabet, one rotating layout for every other "
+        "history; non-trivial = at least one observation and one "
         "modification; plus tiny hashing chunk sizes and files larger than the default 512 KiB chunk (the latter "
         "judged directly, without the model).  doc: 26 contents x 14 file names x validate on/off.  rw: reader "
         "threads vs a writer.  "
@@ -1877,6 +1889,9 @@ def run(chk):
         "etag theorems carry the property's own hypothesis: along the history (size, mtime_ns) determines the "
         "content; and no change of the file between the os.stat and the read inside one etag() call "
         "(c16_midcall_change_refuted shows the cache is poisoned otherwise)",
+        "'the path' is the configured path string as the OS resolves it at the moment of each call (symbolic links "
+        "followed then, not at construction); the working directory does not change between the construction of a "
+        "source with a relative path and its use (the property says nothing about os.chdir; not exercised)",
         "histories with a change inside an etag() call are outside the theorems; they are run against the model "
         "(FileStore.etag_call's mid-call change, or [etag; change] when the call had already read the old bytes; torn "
         "reads have no counterpart) and judged directly on the implementation: etag() on a quiet file = tag of a fresh "
